@@ -55,6 +55,13 @@ theorem records_cover_sent (evs : List Ev) :
       (run init evs).g.p x.kind idx = some y ∧ (⟨x.round, x.index⟩ : Ctx).le y :=
   (inv_run evs).1.covered
 
+/-- The list `sent` the theorems speak about is not a separate bookkeeping that could drift from the behaviour
+    the correspondence check observes: what any call (from any state `s`) adds to it is exactly the list of
+    SendMessageEvents among the events the call posted (`out`, the list compared with the real code), in order. -/
+theorem sent_is_what_was_posted (s : St) (e : Ev) :
+    (step s e).1.g.sent.map Signed.key = s.g.sent.map Signed.key ++ (step s e).1.g.out.filterMap sendKey :=
+  sent_tracks_out s e
+
 /-- A restarted node knows what it signed: the marks rebuilt by `NewVoteDB` from the records are exactly the
     number of records of each kind at the newest recorded context, and that context bounds every record. -/
 theorem restart_rebuilds_marks (p : Persist) :
